@@ -105,6 +105,7 @@ let functions : (string * (val0 -> val0)) list = [
   ("votesgen", votesgen_run);
   ("oraclegen", oraclegen_run);
   ("reggen", reggen_run);
+  ("sigprune", prune_run);
 ]
 
 (* monitors: (property, suite) -> case -> implementation output -> list of violations *)
@@ -122,6 +123,8 @@ let monitors : ((string * string) * (val0 -> val0 -> val0)) list = [
   (("C07", "ckpt"), mon_C07_ckpt);
   (("C08", "evm"), mon_C08);
   (("C08", "sigset"), mon_C08_sigset);
+  (("C08", "hub"), mon_C08_hub);
+  (("C08", "sigprune"), mon_C08_prune);
   (("C07", "sig"), mon_C07_sig);
   (("C14", "claim"), mon_C14);
   (("C16", "reg"), mon_C16);
